@@ -158,6 +158,26 @@ def run(tier):
             failures.append(dict(kind='history', summary=f'local shuffle n={n} B={B}: {out} is not a permutation', config=dict(kind='local', n=n, B=B)))
         elif any(j > i + B - 1 for i, j in enumerate(out)):
             failures.append(dict(kind='history', summary=f'local shuffle n={n} B={B}: {out} emits an example more than B-1 positions early', config=dict(kind='local', n=n, B=B)))
+    # copies of a local shuffle (explicit, frozen, behind a mapped stage, through a lazy apply) keep its window: permutation + locality
+    for _ in range(600 if big else 80):
+        n, B = r.randint(0, 9), r.randint(1, 5)
+        seed = r.randint(0, 10 ** 6)
+        base = ld.new(list(range(n))).shuffle(True, rng=np.random.RandomState(seed), buffer_size=B)
+        how = r.choice(['copy', 'freeze', 'map_copy', 'lazyapply', 'copy_copy'])
+        try:
+            if how == 'copy': c = base.copy()
+            elif how == 'freeze': c = base.copy(freeze=True)
+            elif how == 'map_copy': c = base.map(int).copy()
+            elif how == 'copy_copy': c = base.copy().copy(freeze=True)
+            else: c = ld.new(list(range(n))).apply(lambda d, s=seed, b=B: d.shuffle(True, rng=np.random.RandomState(s), buffer_size=b), lazy=True)
+            out = [int(x) for x in c]
+        except Exception as e:
+            failures.append(dict(kind='history', summary=f'{how} of a local shuffle (n={n}, buffer_size={B}) raised {type(e).__name__}: {e}', config=dict(kind='localcopy', n=n, B=B, how=how)))
+            continue
+        if sorted(out) != list(range(n)):
+            failures.append(dict(kind='history', summary=f'{how} of a local shuffle n={n} buffer_size={B}: {out} is not a permutation', config=dict(kind='localcopy', n=n, B=B, how=how)))
+        elif any(j > i + B - 1 for i, j in enumerate(out)):
+            failures.append(dict(kind='history', summary=f'{how} of a local shuffle n={n} buffer_size={B}: {out} emits an example more than buffer_size - 1 positions early', config=dict(kind='localcopy', n=n, B=B, how=how)))
     # two local-shuffle iterators in flight over one object: buffers are per iterator
     for _ in range(200 if big else 30):
         n, B = r.randint(1, 7), r.randint(1, 4)
